@@ -31,6 +31,9 @@ NODAL = ['ElementLineP1', 'ElementLineP2', 'ElementTriP1', 'ElementTriP2', 'Elem
 
 def make_elem(spec):
     import skfem.element as E
+    if spec == 'ElementTriArgyris/derivatives=3':
+        # the class attribute that asks ElementGlobal for third derivatives (its only user in the library is ElementHexC1)
+        return type('ElementTriArgyris3', (E.ElementTriArgyris,), dict(derivatives=3))()
     if isinstance(spec, str) and '(' in spec:
         return eval(spec, {k: getattr(E, k) for k in E.__all__})
     return getattr(E, spec)()
@@ -448,7 +451,7 @@ def build_configs(tier, seed):
         mesh = REF_MESH[rd]
         if fam == 'global':
             # V comes from an exact rational inverse on numeric geometry; X symbolic
-            heavy = base in ('ElementTriArgyris', 'ElementTri15ParamPlate', 'ElementQuadBFS', 'ElementHexC1')
+            heavy = False
             if base == 'ElementHexC1':
                 continue
             if mesh == 'tri1':
@@ -476,12 +479,13 @@ def build_configs(tier, seed):
             free = [0] if not quick else 'none'
         if base == 'ElementHexRT1':
             free = 'none'      # Piola map on a trilinear cell with a symbolic vertex: no verdict within 50 min (measured); numeric geometry, symbolic point
-        big = nbfun(e) > 12
-        if quick and (big or base in ('ElementTriP3', 'ElementTriP4', 'ElementTetCCR', 'ElementQuadP', 'ElementLinePp') and spec[-2:] not in ('1)', '2)')):
-            if base not in ('ElementTriP3',):
-                continue
+        if quick and base == 'ElementHexRT1':
+            continue        # 5 min; thorough only
         cfgs.append(dict(name='mapped/%s/%s%s' % (spec, mesh, '' if free is None else '/free=%s' % free), fn=mapped_config,
                          kw=dict(spec=spec, mesh=mesh, free=free), opts=dict(timeout=900 if quick else 3000)))
+    # third derivatives of globally defined elements (mixed multi-indices such as (0,1,0))
+    cfgs.append(dict(name='mapped/ElementTriArgyris/derivatives=3/tri1heron/Gnum', fn=mapped_config,
+                     kw=dict(spec='ElementTriArgyris/derivatives=3', mesh='tri1heron', free='none', maxfun=4 if quick else 8), opts=dict(timeout=900)))
     # wrappers
     wr = [('ElementVector(ElementTriP2())', 'tri1'), ('ElementDG(ElementTriP2())', 'tri1'),
           ('ElementVector(ElementTetP1())', 'tet1'), ('ElementDG(ElementTriRT1())', 'tri1'),
